@@ -253,6 +253,50 @@ fn codec_sweep<X: Sx>(ctx: &Ctx, idx: u64, which: usize) {
         }
         check(ctx, c, suite, "empty", "-", &[], true);
     }
+    // the same object in another representation, or glued to a copy of itself: wrong lengths and formats
+    if c.fixed.is_none() {
+        let mut alt: Vec<(String, Vec<u8>, bool)> = vec![];
+        // every point slot replaced by its uncompressed form (the rest kept)
+        let mut unc = vec![];
+        let mut pos = 0usize;
+        let mut any_point = false;
+        for (off, kind, _) in c.slots.iter() {
+            unc.extend_from_slice(&honest[pos..*off]);
+            match kind {
+                Slot::G1 => {
+                    let p: Option<G1Affine> = G1Affine::from_compressed(&honest[*off..off + 48].try_into().unwrap()).into();
+                    unc.extend_from_slice(&p.unwrap().to_uncompressed());
+                    pos = off + 48;
+                    any_point = true;
+                }
+                Slot::G2 => {
+                    let p: Option<G2Affine> = G2Affine::from_compressed(&honest[*off..off + 96].try_into().unwrap()).into();
+                    unc.extend_from_slice(&p.unwrap().to_uncompressed());
+                    pos = off + 96;
+                    any_point = true;
+                }
+                Slot::Sc => {
+                    unc.extend_from_slice(&honest[*off..off + 32]);
+                    pos = off + 32;
+                }
+            }
+        }
+        unc.extend_from_slice(&honest[pos..]);
+        if any_point {
+            let mut flagged = unc.clone();
+            flagged[0] |= 0x80;
+            alt.push(("uncompressed-points".into(), unc, true));
+            alt.push(("uncompressed-points-with-compression-flag".into(), flagged, true));
+        }
+        let has_point = c.slots.iter().any(|s| !matches!(s.1, Slot::Sc));
+        alt.push(("doubled".into(), [&honest[..], &honest[..]].concat(), has_point || c.slots.len() <= 1));
+        alt.push(("zero-prefixed".into(), [&[0u8][..], &honest[..]].concat(), true));
+        alt.push(("reversed".into(), honest.iter().rev().cloned().collect(), has_point));
+        alt.push(("hex-text".into(), hex::encode(honest).into_bytes(), has_point || c.slots.len() <= 1));
+        for (nm, x, must) in alt {
+            check(ctx, c, suite, &format!("alt-{nm}"), "-", &x, must);
+        }
+    }
     // slot patterns
     for (si, (off, kind, forbid_neutral)) in c.slots.iter().enumerate() {
         match kind {
